@@ -16,7 +16,7 @@
 (* implementation returned and the laws judge it.  That is what makes the  *)
 (* module directly usable as a trace specification (TraceOps.tla).         *)
 (***************************************************************************)
-EXTENDS Oracle
+EXTENDS Oracle, FloatGeometry
 
 CONSTANTS Laws,      \* the set of law identifiers to evaluate ("C01" .. "C12")
           OnlyF      \* "any", or a float type: unary laws are evaluated only for calls of that type
@@ -183,6 +183,62 @@ SameRingSetS(m1, m2) == /\ Len(m1) = Len(m2)
                         /\ \A j \in 1..Len(m2) : \E i \in 1..Len(m1) : PolyEqS(m1[i], m2[j])
 C01_OpaqueObvious(c) == c.hasexpect => SameRingSetS(c.smp, c.expect)
 
+\* ---------------------------------------------------- laws on the float coordinates themselves
+\* Operands handed to the library with coordinates that have NO image in the integer domain
+\* (irrational rotations / shears of lattice operands, rounded to the nearest double or float): meta.smp
+\* holds their rings as bit-pattern points, c.smp the returned rings, c.wits candidate witness points
+\* chosen by the generator (it chooses, it does not judge), c.mexp its claim that every operand
+\* coordinate is at most 2^mexp in magnitude.  FloatGeometry decides everything exactly.
+\* A witness is ADMISSIBLE if it is at least 2^(mexp - KW) away from the line of every edge of every
+\* base operand: "not within rounding distance of an input edge", with a margin of 2^28 (f64) /
+\* 2^10 (f32) units in the last place of the largest coordinate.
+KW(F) == IF F = "f64" THEN 24 ELSE 14
+\* tolerance of C04 on floats: 2^-30 (about 1e-9) of the largest coordinate for f64, 2^-16 for f32
+KN(F) == IF F = "f64" THEN 30 ELSE 16
+FloatCall(c) == "wits" \in DOMAIN c /\ \A n \in Bases(c) : meta[n].fw
+FBaseEdges(c) == UNION {FProperEdges(meta[n].smp) : n \in Bases(c)}
+FAdmissible(c) == LET E == FBaseEdges(c)  d == c.mexp - KW(c.F)
+                  IN {i \in 1..Len(c.wits) : FClear(E, c.wits[i], d)}
+FExpected(c, w) == EvalExpr(ExprOf(c), [n \in Bases(c) |-> FInEvenOdd(meta[n].smp, w)])
+\* the generator's claims: the magnitude bound, and witnesses that are mostly admissible (anti-vacuity)
+FClaimsHonest(c) ==
+  /\ \A n \in Bases(c) : \A e \in FEdges(meta[n].smp) : \A k \in 1..2 : FAbsLeqPow2(e[k][1], c.mexp) /\ FAbsLeqPow2(e[k][2], c.mexp)
+  /\ (FBaseEdges(c) # {} => 2 * Cardinality(FAdmissible(c)) >= Len(c.wits))
+\* C01 (C11 for chained calls): at every admissible witness the returned multipolygon, read polygon by
+\* polygon, contains the point iff the named combination of the operands (even-odd reading) does
+C01_WitnessF(c) == \A i \in FAdmissible(c) : FInMp(c.smp, c.wits[i]) = FExpected(c, c.wits[i])
+\* C02 at witnesses: no point is in two polygons, the polygon reading and the even-odd reading of all
+\* rings agree (a hole listed under the wrong polygon makes them differ inside that hole), and no
+\* boundary segment is listed twice (bitwise, either direction)
+FUnordered(e) == {e[1], e[2]}
+FNoRepeatedEdge(mp) ==
+  \A x \in FRingIdx(mp) : \A y \in FRingIdx(mp) :
+     LET r1 == mp[x[1]][x[2]]  r2 == mp[y[1]][y[2]]
+     IN \A k \in 1..(Len(r1) - 1) : \A m \in 1..(Len(r2) - 1) :
+          (<<x, k>> # <<y, m>> /\ r1[k] # r1[k + 1]) => {r1[k], r1[k + 1]} # {r2[m], r2[m + 1]}
+C02_WitnessF(c) ==
+  /\ \A i \in FAdmissible(c) : LET w == c.wits[i]
+                                 IN Cardinality(FPolysAt(c.smp, w)) <= 1 /\ (FInMp(c.smp, w) = FInEvenOdd(c.smp, w))
+  /\ FNoRepeatedEdge(c.smp)
+\* C04 on floats: closed rings with >= 3 distinct vertices and non-zero area, counter-clockwise when the
+\* sweep ran (popped > 0: rings handed back by the box shortcut keep their direction); every edge within
+\* tolerance of ONE input edge; every vertex bit-identical to an input vertex or within tolerance of two
+\* input edges on different lines
+C04_F(c) ==
+  LET E == FBaseEdges(c)  d == c.mexp - KN(c.F)
+      V == UNION {{e[1], e[2]} : e \in E}
+      near(f, v) == FNearSeg(f[1], f[2], v, d)
+      otherline(f, g) == FOrient(f[1], f[2], g[1]) # 0 \/ FOrient(f[1], f[2], g[2]) # 0
+  IN \A x \in FRingIdx(c.smp) :
+       LET ring == c.smp[x[1]][x[2]] IN
+       /\ Len(ring) >= 4 /\ ring[1] = ring[Len(ring)]
+       /\ Cardinality({ring[k] : k \in 1..Len(ring)}) >= 3
+       /\ FAreaSgn(ring) # 0 /\ (c.popped > 0 => FAreaSgn(ring) = 1)
+       /\ \A k \in 1..(Len(ring) - 1) :
+             ring[k] = ring[k + 1] \/ \E f \in E : near(f, ring[k]) /\ near(f, ring[k + 1])
+       /\ \A k \in 1..(Len(ring) - 1) :
+             ring[k] \in V \/ \E f \in E : near(f, ring[k]) /\ \E g \in E : g # f /\ otherline(f, g) /\ near(g, ring[k])
+
 \* C12 (first half): the operands are bit-for-bit what they were before the call
 C12_OperandsUntouched(c) == c.xd[1] = c.xd[2] /\ c.yd[1] = c.yd[2]
 
@@ -268,8 +324,10 @@ Violated(c) ==
       v03 == IF "C03" \in Laws /\ un /\ ~C03_Returns(c) THEN {"C03"} ELSE {}
       v12 == IF "C12" \in Laws /\ (~C12_OperandsUntouched(c) \/ ~pair(C12_Deterministic)) THEN {"C12"} ELSE {}
       big == BigCall(c)
+      fw == FloatCall(c) /\ ok /\ un
+      vfh == IF FloatCall(c) /\ ~FClaimsHonest(c) THEN {"HARNESS"} ELSE {}
       c04 == ~big /\ C04_RingsFromInputs(c)
-      v04 == IF "C04" \in Laws /\ un /\ ok /\ ~big /\ ~c04 THEN {"C04"} ELSE {}
+      v04 == IF "C04" \in Laws /\ ((un /\ ok /\ ~big /\ ~c04) \/ (fw /\ ~C04_F(c))) THEN {"C04"} ELSE {}
       \* Region laws: when C04 holds the result's edges lie on input edges and the arrangement of
       \* the inputs decides them; otherwise the result's own edges refine the arrangement, provided
       \* every meeting point is still integral - if not, the law is UNDECIDED for this call (never
@@ -282,16 +340,17 @@ Violated(c) ==
       extra == IF c04 THEN {} ELSE resE
       und == IF wantGeo /\ ~decid THEN {"UNDECIDED"} ELSE {}
       v01 == IF "C01" \in Laws /\ ((geo /\ Depth1(c) /\ ~RegionOK(c, extra)) \/ (ok /\ un /\ big /\ ~OpaqueCall(c) /\ ~C01_TouchOnlyObvious(c)) \/ (ok /\ un /\ OpaqueCall(c) /\ ~C01_OpaqueObvious(c))
-                                      \/ (ok /\ un /\ WitnessCall(c) /\ ~C01_Witness(c))) THEN {"C01"} ELSE {}
-      v11 == IF "C11" \in Laws /\ geo /\ ~Depth1(c) /\ ~RegionOK(c, extra) THEN {"C11"} ELSE {}
-      v02 == IF "C02" \in Laws /\ geo /\ ~C02_PolygonSetValid(c) THEN {"C02"} ELSE {}
+                                      \/ (ok /\ un /\ WitnessCall(c) /\ ~C01_Witness(c))
+                                      \/ (fw /\ Depth1(c) /\ ~C01_WitnessF(c))) THEN {"C01"} ELSE {}
+      v11 == IF "C11" \in Laws /\ ((geo /\ ~Depth1(c) /\ ~RegionOK(c, extra)) \/ (fw /\ ~Depth1(c) /\ ~C01_WitnessF(c))) THEN {"C11"} ELSE {}
+      v02 == IF "C02" \in Laws /\ ((geo /\ ~C02_PolygonSetValid(c)) \/ (fw /\ ~C02_WitnessF(c))) THEN {"C02"} ELSE {}
       v06 == IF "C06" \in Laws /\ ok /\ un /\ ~OpaqueCall(c) /\ ~((big \/ (C06_Self(c) /\ C06_Empty(c))) /\ C06_DisjointBoxes(c) /\ pair(C06_Commutes)) THEN {"C06"} ELSE {}
       v07 == IF "C07" \in Laws /\ ~OpaqueCall(c) /\ ~pair(C07_RepresentationInvariant) THEN {"C07"} ELSE {}
       v08 == IF "C08" \in Laws /\ ~big /\ ~pair(C08_TransformCommutes) THEN {"C08"} ELSE {}
       v09 == IF "C09" \in Laws /\ ~big /\ ~pair(C09_FarPartLocal) THEN {"C09"} ELSE {}
       v10 == IF "C10" \in Laws /\ ~OpaqueCall(c) /\ ~pair(C10_F32AgreesF64) THEN {"C10"} ELSE {}
       v05 == IF "C05" \in Laws /\ ~big /\ ~C05_Partition(c, lg) THEN {"C05"} ELSE {}
-  IN und \cup v03 \cup v12 \cup v04 \cup v01 \cup v11 \cup v02 \cup v06 \cup v07 \cup v08 \cup v09 \cup v10 \cup v05
+  IN vfh \cup und \cup v03 \cup v12 \cup v04 \cup v01 \cup v11 \cup v02 \cup v06 \cup v07 \cup v08 \cup v09 \cup v10 \cup v05
 
 \* ------------------------------------------------------------------- actions
 \* is the generator's claim about the new operand true? (a false claim is a harness error)
@@ -317,7 +376,8 @@ Call(c) ==
   /\ val' = Ext(val, c.res, c.mp)
   /\ meta' = Ext(meta, c.res, [rel |-> "result", of |-> "", frame |-> meta[c.x].frame, expr |-> ExprOf(c),
                                 big |-> meta[c.x].big \/ meta[c.y].big, touch |-> FALSE,
-                                opaque |-> meta[c.x].opaque \/ meta[c.y].opaque, nedges |-> 0,
+                                opaque |-> meta[c.x].opaque \/ meta[c.y].opaque, nedges |-> IF "nres" \in DOMAIN c THEN c.nres ELSE 0,
+                                fw |-> meta[c.x].fw /\ meta[c.y].fw, smp |-> IF "smp" \in DOMAIN c THEN c.smp ELSE <<>>,
                                 wit |-> IF meta[c.x].wit > meta[c.y].wit THEN meta[c.x].wit ELSE meta[c.y].wit])
   /\ log' = Append(log, c)
 
